@@ -124,6 +124,10 @@ def direct_sites():
                             "insert_element_before", "addprevious", "addnext", "append", "insert", "replace"):
                         recv = ast.unparse(fn.value)
                         lits = [a.value for a in node.args if isinstance(a, ast.Constant) and isinstance(a.value, str)]
+                        if fn.attr == "replace" and (node.keywords or lits or len(node.args) != 2):
+                            # str.replace("a", "b") / datetime.replace(tzinfo=None): not lxml's replace(old, new)
+                            self.generic_visit(node)
+                            return
                         # list.append etc. on plain python lists are not tree mutations: keep only
                         # receivers that are elements: heuristic = not a bare local list name known below
                         out.append((rel, ".".join(stack), fn.attr, recv, lits))
